@@ -159,10 +159,11 @@ theorem all_templates_have_layouts :
     (atlasFiles ++ cms_aodFiles ++ cms_miniaodFiles).all (fun nt => (flatten nt.2).isSome) = true := by
   decide +kernel
 
-/-- the dataclass fields are exactly the documented ones, each with a documented ATLAS place that
-exists in `atlasDocs`, and with the template variable `expectedInfo` feeds -/
+/-- the dataclass fields are exactly the documented ones (in any order), each with a documented
+ATLAS place that exists in `atlasDocs`, and with the template variable `expectedInfo` feeds -/
 theorem fields_documented :
-    injectFields = atlasFieldPlace.map (·.1) ∧ injectFields = fieldKey.map (·.1) ∧
+    (injectFields.all fun f => (atlasFieldPlace.map (·.1)).contains f && (fieldKey.map (·.1)).contains f) = true ∧
+    (atlasFieldPlace.all fun p => injectFields.contains p.1) = true ∧
     (atlasFieldPlace.all fun p => fieldKey.contains (p.1, p.2.2) &&
       atlasDocs.any fun d => d.file == p.2.1 && d.slots.any fun sd => sd.xs == p.2.2) = true ∧
     (cmsFieldPlace.all fun p => fieldKey.contains (p.1, p.2.2) &&
@@ -312,7 +313,14 @@ theorem package_atlas (mds : List Md) (base : Base) :
     SpecOutcome injectFields atlasDocs atlasPlaced (witOf atlasFiles) mds base
       (outcomeOf (runPackage injectFields atlasFiles mds base)) :=
   package injectFields atlasFiles atlasDocs atlasPlaced atlas_docs_ok
-    (by intro ps hps f hf; simp only [atlasPlaced, Option.some.injEq] at hps; rw [← hps, ← fields_documented.1]; exact hf)
+    (by
+      intro ps hps f hf
+      simp only [atlasPlaced, Option.some.injEq] at hps
+      have := fields_documented.1
+      rw [List.all_eq_true] at this
+      have := this f hf
+      simp only [Bool.and_eq_true, List.contains_iff_mem] at this
+      rw [← hps]; exact this.1)
     mds base
 
 /-- **C14.package_cms_aod** — on CMS AOD the body includes are honoured. -/
